@@ -1,12 +1,13 @@
 (** Model/MapSites.v -- the COMMITTED classification of every runtime-ordered iteration site on the
     block-execution path (C02, obligation "map iteration order").  Data only.
 
-    Key = (file, function, line-independent id, digest of the loop text as printed by go/printer).  The
-    translator regenerates Gen/MapRanges.v from the current source on every run; the theorem
-    [all_map_ranges_classified] (Props/C02.v) re-checks by computation that every generated site has an
-    entry here.  A new `range` over a map, a new sync.Map.Range call, or ANY edit of the text of a listed
-    loop (the digest changes) makes that theorem fail until the site is looked at again and this table
-    updated.
+    Key = (file, function, line-independent id, digest of the text of the WHOLE enclosing function as
+    printed by go/printer, comments dropped).  The translator regenerates Gen/MapRanges.v from the current
+    source on every run; the theorem [all_map_ranges_classified] (Props/C02.v) re-checks by computation
+    that every generated site has an entry here.  A new `range` over a map, a new sync.Map.Range call, or
+    ANY edit of a function containing a listed loop (the digest changes: e.g. dropping the sort after a
+    collect loop, adding an early return) makes that theorem fail until the site is looked at again and
+    this table updated.  (To refresh digests after a reviewed, harmless edit: copy them from Gen/MapRanges.v.)
 
     Classes (Model/Determinism.v): Proved l -- the loop is mirrored in Part A of the model and lemma l is
     proved for the mirror; Argued l why -- same loop shape inside a larger body, hypotheses of l argued by
@@ -21,67 +22,74 @@ Definition gov := "smartcontract/service/native/governance/".
 
 Definition classification : list (site_key * order_class) := [
   (* --- ledger store --- *)
-  (("core/store/ledgerstore/ledger_store.go", "(*LedgerStoreImp).executeBlock", "syncmap neovm.GAS_TABLE#0", "81203f8f9f49"),
+  (("core/store/ledgerstore/ledger_store.go", "(*LedgerStoreImp).executeBlock", "syncmap neovm.GAS_TABLE#0", "617d6e215411"),
    Proved L_map_copy);
-  (("core/store/ledgerstore/ledger_store.go", "(*LedgerStoreImp).PreExecuteContractWithParam", "syncmap neovm.GAS_TABLE#0", "ab06f18a991c"),
+  (("core/store/ledgerstore/ledger_store.go", "(*LedgerStoreImp).PreExecuteContractWithParam", "syncmap neovm.GAS_TABLE#0", "078be6246699"),
    OffPath "pre-execution (RPC), never part of a block; the body is a map copy with one key overridden by a parameter");
-  (("core/store/ledgerstore/tx_handler.go", "refreshGlobalParam", "syncmap neovm.GAS_TABLE#0", "fe4e9f6f416e"),
+  (("core/store/ledgerstore/tx_handler.go", "refreshGlobalParam", "syncmap neovm.GAS_TABLE#0", "513c84a8fb7e"),
    Proved L_per_key_update);
   (* --- validator --- *)
-  (("core/validation/transaction_validator.go", "checkTransactionSignatures", "range address#0", "22969108aa61"),
+  (("core/validation/transaction_validator.go", "checkTransactionSignatures", "range address#0", "f2d2e90544fd"),
    Proved L_witness_membership);
   (* --- native contracts --- *)
-  (("smartcontract/service/native/auth/utils.go", "StringsDedupAndSort", "range smap#0", "2f35ef3b8f78"),
+  (("smartcontract/service/native/auth/utils.go", "StringsDedupAndSort", "range smap#0", "8e53f1ed8a2c"),
    Proved L_collect_sort);
-  (("smartcontract/service/native/cross_chain/header_sync/states.go", "(*ConsensusPeers).Serialization", "range this.PeerMap#0", "c600fe97e557"),
+  (("smartcontract/service/native/cross_chain/header_sync/states.go", "(*ConsensusPeers).Serialization", "range this.PeerMap#0", "c1e57a9beb20"),
    Argued L_collect_sort "values collected then sort.SliceStable by PeerPubkey; PeerMap is keyed by PeerPubkey (Deserialization inserts PeerMap[peer.PeerPubkey]), so sort keys are unique");
-  ((gov ++ "governance.go", "ApproveCandidate", "range peerPoolMap.PeerPoolMap#0", "1eba6f0ea105"), Proved L_count);
-  ((gov ++ "governance.go", "QuitNode", "range peerPoolMap.PeerPoolMap#0", "1eba6f0ea105"), Proved L_count);
-  ((gov ++ "method.go", "registerCandidate", "range peerPoolMap.PeerPoolMap#0", "1eba6f0ea105"), Proved L_count);
-  ((gov ++ "governance.go", "UpdateConfig", "range peerPoolMap.PeerPoolMap#0", "c1c18f98ec13"), Proved L_count);
-  ((gov ++ "governance.go", "GetPeerPoolByAddress", "range peerPoolMap.PeerPoolMap#0", "f1e0bf531f1e"),
+  ((gov ++ "governance.go", "ApproveCandidate", "range peerPoolMap.PeerPoolMap#0", "192536d96452"), Proved L_count);
+  ((gov ++ "governance.go", "QuitNode", "range peerPoolMap.PeerPoolMap#0", "a082bbffcd79"), Proved L_count);
+  ((gov ++ "method.go", "registerCandidate", "range peerPoolMap.PeerPoolMap#0", "6d5cf4e354c0"), Proved L_count);
+  ((gov ++ "governance.go", "UpdateConfig", "range peerPoolMap.PeerPoolMap#0", "e2863b3e6f37"), Proved L_count);
+  ((gov ++ "governance.go", "GetPeerPoolByAddress", "range peerPoolMap.PeerPoolMap#0", "9d116453256f"),
    Argued L_map_copy "copies the entries with v.Address == address into a fresh map: map_copy of the filtered entries (filter maps permutations to permutations)");
-  ((gov ++ "governance.go", "GetPeerPoolByAddress", "range subPeerPool#0", "fcd6e0a61bab"),
+  ((gov ++ "governance.go", "GetPeerPoolByAddress", "range subPeerPool#0", "9d116453256f"),
    Argued L_collect_sort "items built per entry, then sort.SliceStable by PeerAddress hex (address of the unique PeerPubkey); the early error returns abort the call whatever entry raised them, the error text is not recorded in state or events");
-  ((gov ++ "governance.go", "GetPeerPoolForVm", "range peerPoolMap.PeerPoolMap#0", "8108474a4929"),
+  ((gov ++ "governance.go", "GetPeerPoolForVm", "range peerPoolMap.PeerPoolMap#0", "1f715311b61f"),
    Argued L_collect_sort "as GetPeerPoolByAddress: collect, then sort by PeerAddress hex");
-  ((gov ++ "method.go", "executeSplit", "range peerPoolMap.PeerPoolMap#0", "289f6c3d712e"),
+  ((gov ++ "method.go", "executeSplit", "range peerPoolMap.PeerPoolMap#0", "62fb2a3a7f59"),
    Argued L_collect_sort "candidates collected, then sort.SliceStable by (Stake desc, PeerPubkey desc): total and strict because PeerPubkey is unique per entry");
-  ((gov ++ "method.go", "executeSplit2", "range peerPoolMap.PeerPoolMap#0", "289f6c3d712e"),
+  ((gov ++ "method.go", "executeSplit2", "range peerPoolMap.PeerPoolMap#0", "918a2b68c8d5"),
    Argued L_collect_sort "same loop text as executeSplit");
-  ((gov ++ "method.go", "executeCommitDpos1", "range peerPoolMap.PeerPoolMap#0", "f4cd65d74728"),
-   Argued L_commute_disjoint "per entry: normalQuit/blackQuit write only keys prefixed AUTHORIZE_INFO_POOL+pubkey / this peer's own records (pubkeys have one fixed length, so prefixes are disjoint), delete or re-store the entry's own map key (Go allows that during range and never re-visits it); collected stakes are sorted afterwards by (Stake, PeerPubkey)");
-  ((gov ++ "method.go", "executeCommitDpos2", "range peerPoolMap.PeerPoolMap#0", "96685023b8a9"),
-   Argued L_commute_disjoint "as executeCommitDpos1, plus putPeerAttributes keyed by the entry's pubkey");
-  ((gov ++ "states.go", "(*PeerPoolMap).Serialization", "range this.PeerPoolMap#0", "e630e873dcbb"),
+  ((gov ++ "method.go", "executeCommitDpos1", "range peerPoolMap.PeerPoolMap#0", "2a2593dd7aed"),
+   (* STATE: per entry normalQuit/blackQuit write only keys prefixed AUTHORIZE_INFO_POOL+pubkey / this peer's own
+      records (pubkeys have one fixed length, so prefixes are disjoint) and additive totals (withdrawTotalStake,
+      depositPenaltyStake), delete or re-store the entry's own map key (Go allows that during range and never
+      re-visits it); the collected stakes are sorted afterwards by (Stake, PeerPubkey): commutes, by reading
+      (L_commute_disjoint).  EVENTS: blackQuit's ONT transfer notifications (value InitPos) are appended in map
+      order: model A9, refuted for two black-listed peers with different InitPos. *)
+   Finding "maporder:governance-blackquit-events");
+  ((gov ++ "method.go", "executeCommitDpos2", "range peerPoolMap.PeerPoolMap#0", "86309f313042"),
+   (* as executeCommitDpos1, plus putPeerAttributes keyed by the entry's pubkey *)
+   Finding "maporder:governance-blackquit-events");
+  ((gov ++ "states.go", "(*PeerPoolMap).Serialization", "range this.PeerPoolMap#0", "e073f1754346"),
    Argued L_collect_sort "values collected then sort.SliceStable by PeerPubkey = map key (unique)");
-  (("smartcontract/service/native/ont/ont.go", "OntInit", "range distribute#0", "8fe9bb7c449f"),
+  (("smartcontract/service/native/ont/ont.go", "OntInit", "range distribute#0", "284afee57b1e"),
    Argued L_singleton "puts go to one balance key per address (commute); the transfer notifications ARE appended in visiting order, but OntInit only succeeds in the genesis block (total supply must still be zero) and genesis.newGoverningInit builds exactly one (address, ONT_TOTAL_SUPPLY) entry");
-  (("smartcontract/service/native/ontfs/errors.go", "(*Errors).ToString", "range this.ObjectErrors#0", "803557bad5c8"),
+  (("smartcontract/service/native/ontfs/errors.go", "(*Errors).ToString", "range this.ObjectErrors#0", "4a447879dd46"),
    Finding "maporder:ontfs-errors-event");
-  (("smartcontract/service/native/ontfs/errors.go", "(*Errors).PrintErrors", "range this.ObjectErrors#0", "22ed10b9a1b5"),
+  (("smartcontract/service/native/ontfs/errors.go", "(*Errors).PrintErrors", "range this.ObjectErrors#0", "13e5e648b9d7"),
    OffPath "prints to stdout, no caller");
   (* --- EVM state --- *)
-  (("smartcontract/storage/statedb.go", "(*StateDB).CommitToCacheDB", "range self.Suicided#0", "5838ff1bbc69"),
+  (("smartcontract/storage/statedb.go", "(*StateDB).CommitToCacheDB", "range self.Suicided#0", "0ef3d2cebdd7"),
    Proved L_prefix_delete);
-  (("smartcontract/storage/statedb.go", "(*StateDB).Snapshot", "range self.Suicided#0", "d30d44b99ff9"),
+  (("smartcontract/storage/statedb.go", "(*StateDB).Snapshot", "range self.Suicided#0", "87b8a0faf2d6"),
    Proved L_map_copy);
-  (("vm/evm/contracts.go", "init", "range PrecompiledContractsHomestead#0", "d20396747af6"),
+  (("vm/evm/contracts.go", "init", "range PrecompiledContractsHomestead#0", "002a278e0e24"),
    OffPath "fills PrecompiledAddresses*, read only by EVM.ActivePrecompiles, whose single caller (access-list set-up in state_processor.go) is commented out");
-  (("vm/evm/contracts.go", "init", "range PrecompiledContractsByzantium#0", "5af7cbc082ef"), OffPath "as Homestead");
-  (("vm/evm/contracts.go", "init", "range PrecompiledContractsIstanbul#0", "d1f037436401"), OffPath "as Homestead");
-  (("vm/evm/contracts.go", "init", "range PrecompiledContractsYoloV2#0", "c2847f83f900"), OffPath "as Homestead");
-  (("vm/evm/logger.go", "(Storage).Copy", "range s#0", "b011d0a42ef0"),
+  (("vm/evm/contracts.go", "init", "range PrecompiledContractsByzantium#0", "002a278e0e24"), OffPath "as Homestead");
+  (("vm/evm/contracts.go", "init", "range PrecompiledContractsIstanbul#0", "002a278e0e24"), OffPath "as Homestead");
+  (("vm/evm/contracts.go", "init", "range PrecompiledContractsYoloV2#0", "002a278e0e24"), OffPath "as Homestead");
+  (("vm/evm/logger.go", "(Storage).Copy", "range s#0", "cad4e838dc16"),
    OffPath "StructLogger (tracer): HandleEIP155Transaction runs with evm.Config{} (no tracer); the body is a map copy");
-  (("vm/evm/logger.go", "WriteTrace", "range log.Storage#0", "90b542ea77b7"), OffPath "debug printer of the tracer");
-  (("vm/evm/logger.go", "WriteLogs", "range log.Topics#0", "75a66c01220b"),
+  (("vm/evm/logger.go", "WriteTrace", "range log.Storage#0", "c3b3a91a636b"), OffPath "debug printer of the tracer");
+  (("vm/evm/logger.go", "WriteLogs", "range log.Topics#0", "3da12720d745"),
    OffPath "debug printer; operand is a go-ethereum []common.Hash (a slice), untyped only because third-party packages are not loaded");
   (* --- NeoVM values --- *)
-  (("vm/neovm/types/map_value.go", "(*MapValue).getMapSortedKey", "range this.Data#0", "faeae4779d30"),
+  (("vm/neovm/types/map_value.go", "(*MapValue).getMapSortedKey", "range this.Data#0", "63f34344c4cb"),
    Proved L_collect_sort);
-  (("vm/neovm/types/neovm_value.go", "(*VmValue).dump", "range self.mapval.Data#0", "748370dd844a"),
+  (("vm/neovm/types/neovm_value.go", "(*VmValue).dump", "range self.mapval.Data#0", "a10ddc3859eb"),
    Proved L_collect_sort);
-  (("vm/neovm/types/neovm_value.go", "(*VmValue).circularRefAndDepthDetection", "range mp.Data#0", "d1c217fd007f"),
+  (("vm/neovm/types/neovm_value.go", "(*VmValue).circularRefAndDepthDetection", "range mp.Data#0", "faf86852f7a2"),
    Finding "maporder:cycle-detector-first-entry")
 ].
 
